@@ -211,7 +211,7 @@ func runC42(c *eng.Ctx) {
 		}
 		// server side: the handler queries the requested range with the decoded matchers and hints
 		for _, h := range [][3]string{{"remoteReadSamples", "Querier", "false"}, {"remoteReadStreamedXORChunks", "ChunkQuerier", "true"}} {
-			f := c.Fn(R + "readHandler." + h[0]).Closure("perQuery", eng.CallNamed("filterExtLabelsFromMatchers"))
+			f := c.Fn(R+"readHandler."+h[0]).Closure("perQuery", eng.CallNamed("filterExtLabelsFromMatchers"))
 			open := eng.Node("h.queryable."+h[1]+"(…)", func(g *eng.Graph, n ast.Node) bool {
 				call, ok := n.(*ast.CallExpr)
 				return ok && eng.ExprString(call.Fun) == "h.queryable."+h[1]
@@ -234,7 +234,7 @@ func runC42(c *eng.Ctx) {
 				return len(a) == 2 && a[0] == "query.Matchers" && a[1] == "externalLabels"
 			})
 		}
-		rs := c.Fn(R + "readHandler.remoteReadSamples").Closure("perQuery", eng.CallNamed("filterExtLabelsFromMatchers"))
+		rs := c.Fn(R+"readHandler.remoteReadSamples").Closure("perQuery", eng.CallNamed("filterExtLabelsFromMatchers"))
 		rs.ErrPropagates("R3", p.Call(R+"ToQueryResult"), 1)
 		rs.Only("R3", eng.Node("resp.Results[…] = …", func(g *eng.Graph, n ast.Node) bool {
 			as, ok := n.(*ast.AssignStmt)
@@ -242,7 +242,7 @@ func runC42(c *eng.Ctx) {
 		}), "stores the result of query i at index i", func(l eng.Loc) bool {
 			return eng.ExprString(l.Node.(*ast.AssignStmt).Lhs[0]) == "resp.Results[i]"
 		})
-		rx := c.Fn(R + "readHandler.remoteReadStreamedXORChunks").Closure("perQuery", eng.CallNamed("filterExtLabelsFromMatchers"))
+		rx := c.Fn(R+"readHandler.remoteReadStreamedXORChunks").Closure("perQuery", eng.CallNamed("filterExtLabelsFromMatchers"))
 		rx.ErrPropagates("R3", p.Call(R+"StreamChunkedReadResponses"), 1)
 		rx.Only("R3", p.Call(R+"StreamChunkedReadResponses"), "streams to the chunked writer with the query's index", func(l eng.Loc) bool {
 			a := eng.CallArgsText(l)
